@@ -127,6 +127,19 @@ def slotted(  # noqa: C901
             _stack.discard(key)
         new_cls.__qualname__ = cls.__qualname__
         new_cls.__module__ = cls.__module__
+        # Zero-argument `super()` reads the `__class__` cell shared by the methods of the
+        #   class body: it must name the class which replaces the original.
+        for member in cls_dict.values():
+            if isinstance(member, property):
+                member = member.fget
+            func = getattr(member, "__func__", member)
+            code = getattr(func, "__code__", None)
+            if code is None or "__class__" not in code.co_freevars:
+                continue
+            cell = func.__closure__[code.co_freevars.index("__class__")]
+            if cell.cell_contents is cls:
+                cell.cell_contents = new_cls
+                break
 
         return new_cls
 
